@@ -357,6 +357,7 @@ func writeEvidence(path string, prop string, cfg runConfig, res *runResult, sel 
 		tb = append(tb, "assumed "+t)
 	}
 	cov := map[string]interface{}{
+		"dropped_helper_contracts": res.droppedHelpers,
 		"obligations":              total,
 		"discharged":               discharged,
 		"checker_cmd":              fmt.Sprintf("/verif/check %s %s", prop, cfg.tier),
